@@ -878,6 +878,7 @@ def r11_10(rep, prog):
     (forced mode / bandwidth / channels of the multi-frame path, the stereo-to-mono hand-over flag) must not leak into
     the next call: a forced channel count set mid-stream would otherwise never take effect."""
     n = 0
+    matched = set()
     for f in prog.functions_all:
         if not f.file.startswith('src/opus_encoder.c') and not f.file.startswith('src/opus_multistream_encoder.c'):
             continue
@@ -918,6 +919,25 @@ def r11_10(rep, prog):
                     sx.show(bad[0][2])[:60], sx.show(saves[0]), l['name']), key='%s:%s:restore' % (f.name, l['name']))
             else:
                 rep.holds('R11.10', inst, where, '%d override(s), %d restore(s) on every live path' % (len(others), len(restores)))
+            matched.add((f.name, saves[0][3]))
+    # a frozen pair whose save has disappeared: the per-frame override inside the multi-frame loop must have gone with it
+    for p_ in _SAVE_RESTORE:
+        if (p_['function'], p_['field']) in matched or not prog.has_fn(p_['function']):
+            continue
+        f = prog.fn(p_['function'])
+        cf = cfgm.CFG(f)
+        inloop = set()
+        for h, latch, body in cf.natural_loops():
+            inloop |= body
+        ov = [(b, i, x) for b, i, x in cf.find(lambda x: x[0] in ('assign', 'cassign') and sx.kind(sx.strip_paren(x[1] if x[0] == 'assign' else x[2])) == 'field'
+                                                and sx.strip_paren(x[1] if x[0] == 'assign' else x[2])[3] == p_['field']) if b in inloop]
+        n += 1
+        inst = '%s:%s restores `%s` after overriding it (frozen instance)' % (prog.config, f.name, p_['field'])
+        if ov:
+            rep.violated('R11.10', inst, '%s:%s' % (f.file, sx.line(ov[0][2])), 'the field is still overridden per frame (`%s`) but is no longer saved before and restored after the loop: the override persists into later calls' % sx.show(ov[0][2])[:50],
+                         key='%s:%s:restore' % (f.name, p_['field']))
+        else:
+            rep.holds('R11.10', inst, f.where(), 'neither saved nor overridden per frame any more')
     return n
 
 
